@@ -70,6 +70,9 @@ func main() {
 	if v := os.Getenv("VERIF_DIR"); v != "" {
 		verifDir = v
 	}
+	if v := os.Getenv("VX_REPO"); v != "" { // development aid: check a scratch copy of the repository
+		repoDir = v
+	}
 	switch os.Args[1] {
 	case "check":
 		os.Exit(cmdCheck(os.Args[2:]))
@@ -272,6 +275,12 @@ func (r *Run) selectCases() error {
 			for k := 0; k < total; k++ {
 				r.cases = append(r.cases, harnessCase{fn: fn, name: n, k: k})
 			}
+		} else if total <= 32 {
+			// small case sets: the quick tier runs the first `want` cases (the remaining ones are
+			// deliberately thorough-only)
+			for k := 0; k < want; k++ {
+				r.cases = append(r.cases, harnessCase{fn: fn, name: n, k: k})
+			}
 		} else {
 			// deterministic spread selected by seed
 			seen := map[int]bool{}
@@ -393,11 +402,21 @@ type pendingQuery struct {
 	obls []*Oblig
 	q    *Query
 	rest *Query // assumptions outside the cone of influence (solved separately to complete a model)
+	pref *Query // the same query with the harness's soft preferences added (model selection only)
 }
 
 func (r *Run) solveJob(x *Exec, jr *JobResult) {
 	c := x.c
 	vs := newVarSets(c)
+	var prefQ func(n int, cond *Term) *Query
+	if len(x.prefers) > 0 {
+		prefQ = func(n int, cond *Term) *Query {
+			as := append([]*Term(nil), x.assumes[:n]...)
+			as = append(as, x.prefers...)
+			return c.BuildQuery(append(as, cond))
+		}
+	}
+	x.prefQ = prefQ
 	mkq := func(n int, cond *Term) (*Query, *Query) {
 		rel, rest := vs.sliceAssumptions(x.assumes[:n], cond)
 		q := c.BuildQuery(append(rel, cond))
@@ -424,8 +443,12 @@ func (r *Run) solveJob(x *Exec, jr *JobResult) {
 			continue
 		}
 		q, rq := mkq(ob.NAssume, ob.Cond)
-		pend = append(pend, &pendingQuery{obls: []*Oblig{ob}, q: q, rest: rq,
-			res: &ObligResult{Harness: jr.Harness, Case: jr.Case, ID: ob.ID, Kind: ob.Kind, Pos: ob.Pos}})
+		pqn := &pendingQuery{obls: []*Oblig{ob}, q: q, rest: rq,
+			res: &ObligResult{Harness: jr.Harness, Case: jr.Case, ID: ob.ID, Kind: ob.Kind, Pos: ob.Pos}}
+		if prefQ != nil && ob.Kind == "assert" {
+			pqn.pref = prefQ(ob.NAssume, ob.Cond)
+		}
+		pend = append(pend, pqn)
 	}
 	sort.Ints(batchKeys)
 	for _, k := range batchKeys {
@@ -510,6 +533,12 @@ func (r *Run) solveOne(pq *pendingQuery, jr *JobResult) {
 	pq.res.Secs = res.Secs
 	pq.res.Nodes = pq.q.Nodes
 	pq.res.q = pq.q
+	if res.Status == "sat" && pq.pref != nil && pq.res.Kind != "reach" {
+		if pr := r.pool.Solve(pq.pref, r.o.Timeout, true); pr.Status == "sat" {
+			res = pr
+			pq.rest = nil // the preference query carries all assumptions
+		}
+	}
 	if res.Status == "sat" {
 		pq.res.Model = res.Model
 		if pq.rest != nil && pq.res.Kind != "reach" {
@@ -838,12 +867,6 @@ var debugObls bool
 // solvePortfolio: the primary solver decides; floating-point queries and queries the primary leaves
 // undecided go to all three solvers concurrently and the first definite verdict wins.
 func (r *Run) solvePortfolio(q *Query) *SolveResult {
-	if !q.HasFP {
-		res := r.pool.Solve(q, r.o.Timeout, true)
-		if res.Status == "sat" || res.Status == "unsat" || res.Status == "error" {
-			return res
-		}
-	}
 	r.mu.Lock()
 	if r.alt == nil {
 		r.alt = map[string]*SolverPool{}
@@ -855,29 +878,67 @@ func (r *Run) solvePortfolio(q *Query) *SolveResult {
 		r.alt[primarySolver()] = r.pool
 	}
 	r.mu.Unlock()
-	kinds := []string{"cvc5int", "cvc5", "z3"}
-	if q.HasFP {
-		kinds = []string{"cvc5", "z3", "z3new"}
-	}
-	ch := make(chan *SolveResult, len(kinds))
-	for _, k := range kinds {
-		go func(k string) {
+	ch := make(chan *SolveResult, 5)
+	launch := func(k string) {
+		go func() {
 			res := r.alt[k].Solve(q, r.o.Timeout, true)
 			res.Raw = k + ": " + res.Raw
 			ch <- res
-		}(k)
+		}()
 	}
-	var last *SolveResult
-	for range kinds {
-		res := <-ch
-		if res.Status == "sat" || res.Status == "unsat" {
-			r.mu.Lock()
-			r.portfolioWins++
-			r.mu.Unlock()
-			return res
+	definite := func(res *SolveResult) bool { return res.Status == "sat" || res.Status == "unsat" }
+	pending := 0
+	var others []string
+	if q.HasFP {
+		for _, k := range []string{"cvc5", "z3", "z3new"} {
+			launch(k)
+			pending++
 		}
-		last = res
+	} else {
+		launch(primarySolver())
+		pending++
+		for _, k := range []string{"cvc5int", "cvc5", "z3"} {
+			if k != primarySolver() {
+				others = append(others, k)
+			}
+		}
 	}
-	last.Status = "unknown"
+	grace := time.After(15 * time.Second)
+	var last *SolveResult
+	for pending > 0 {
+		select {
+		case res := <-ch:
+			pending--
+			if definite(res) || (res.Status == "error" && others != nil && pending == 0 && len(others) == 3) {
+				if !strings.HasPrefix(res.Raw, primarySolver()+":") {
+					r.mu.Lock()
+					r.portfolioWins++
+					r.mu.Unlock()
+				}
+				return res
+			}
+			last = res
+			if pending == 0 && len(others) > 0 {
+				for _, k := range others {
+					launch(k)
+					pending++
+				}
+				others = nil
+			}
+		case <-grace:
+			// the primary is taking long: race the other solvers against it
+			for _, k := range others {
+				launch(k)
+				pending++
+			}
+			others = nil
+		}
+	}
+	if last == nil {
+		last = &SolveResult{}
+	}
+	if last.Status != "error" {
+		last.Status = "unknown"
+	}
 	return last
 }
